@@ -40,6 +40,50 @@ Definition schema_roots_ok (S : schema) : bool :=
 
 Definition schema_ok (S : schema) : bool := schema_no_typename S && schema_input_closed S && schema_roots_ok S.
 
+(** argument definitions (of fields, of the introspection meta fields, of directives): names are
+    distinct (they are the keys of a Go map) and types are input types (schema.New checks this) *)
+Definition args_ok (S : schema) (args : list (name * input_def)) : bool :=
+  nodupb (map fst args) && forallb (fun nd => input_styb S (in_type (snd nd))) args.
+Definition fields_args_ok (S : schema) (fs : list (name * field_def)) : bool :=
+  forallb (fun nf => args_ok S (f_args (snd nf))) fs.
+Definition schema_args_ok (S : schema) : bool :=
+  forallb (fun nt => match t_body (snd nt) with
+                     | TObject fs _ => fields_args_ok S fs
+                     | TInterface fs => fields_args_ok S fs
+                     | _ => true
+                     end) (s_types S)
+  && fields_args_ok S (s_meta S)
+  && forallb (fun nd => args_ok S (dd_args (snd nd))) (s_directives S).
+
+(** Schema.InterfaceImplementations agrees with the interfaces the object types declare, and type
+    names are the keys of a map *)
+Definition impls_of (S : schema) (n : name) : list name :=
+  match assoc n (s_impls S) with Some l => l | None => [] end.
+Definition schema_impls_ok (S : schema) : bool :=
+  nodupb (map fst (s_types S)) &&
+  forallb (fun nt => match t_body (snd nt) with
+                     | TInterface _ =>
+                         forallb (fun x => match raw_body S x with Some (TObject _ ifs) => mem (fst nt) ifs | _ => false end)
+                                 (impls_of S (fst nt))
+                         && forallb (fun nt' => match t_body (snd nt') with
+                                                | TObject _ ifs => if mem (fst nt) ifs then mem (fst nt') (impls_of S (fst nt)) else true
+                                                | _ => true
+                                                end) (s_types S)
+                     | _ => true
+                     end) (s_types S).
+
+(** a non-null input (directive argument, input object field) has no [null] default: for these two
+    kinds of location TypeInfo records "has a default" only for a default other than null, the
+    specification for any default; they differ on nothing else *)
+Definition default_ok (d : input_def) : bool :=
+  negb (is_nonnull (in_type d)) || match in_default d with DNull => false | _ => true end.
+Definition schema_defaults_ok (S : schema) : bool :=
+  forallb (fun nt => match t_body (snd nt) with
+                     | TInput defs => forallb (fun nd => default_ok (snd nd)) defs
+                     | _ => true
+                     end) (s_types S)
+  && forallb (fun nd => forallb (fun a => default_ok (snd a)) (dd_args (snd nd))) (s_directives S).
+
 (** every field selection of the document has a definition (5.3.1 holds and every selection set has
     a known parent type) *)
 Definition fields_defined (S : schema) (F : features) (D : document) : bool :=
